@@ -13,7 +13,8 @@ MANIFEST = dict(
 
 RULE = (
     "W8: histories of 50-500 parse / tokenize / clear_cache calls on one ExpressionParser over a small pool of texts "
-    "(valid, invalid, padding variants of the same text), with returned token lists popped, cleared, overwritten, "
+    "(valid, invalid, padding variants of the same text, inputs that fail deep inside nested groups); every other history "
+    "continues on one parser that lives as long as the shard (thousands of calls); with returned token lists popped, cleared, overwritten, "
     "extended and reversed between calls.  History monitors on parse and tokenize log every call and compare each "
     "answer (tree shadow incl. constant types / token tuples / exception class) with a fresh parser's answer.  "
     "distinct non-trivial = (recent history, query) of a compared call whose text occurred earlier in the same history."
@@ -23,7 +24,7 @@ ASSUMPTIONS = ["only list-level edits of returned token lists are in the history
 SHARDS = {"quick": 8, "thorough": 16}
 DEADLINE = {"quick": 50, "thorough": 420}
 REQUIRED = {"history:compared": 1000, "history:tokenize-compared": 1000, "history:repeat-query": 1000, "history:after-failure": 500,
-            "calls:clear_cache": 50, "calls:edits": 500}
+            "calls:clear_cache": 50, "calls:edits": 500, "histories:on-the-long-lived-parser": 20, "histories:deep-failures-in-pool": 20}
 
 
 def run(rec, cfg):
@@ -33,13 +34,32 @@ def run(rec, cfg):
     MP.attach_parser_tokenize("C12")
     rng = cfg.rng("c12")
     corp = WT.corpus()
+    # one parser per shard lives through every history of the shard (thousands of calls, hundreds
+    # of failed parses of every kind); every other history runs on a parser of its own
+    elder = ExpressionParser()
+    elder._vmon_history = []
     for h in range(cfg.scale(200, 2500)):
         if cfg.out_of_time():
             rec.truncated = True
             break
-        p = ExpressionParser()
-        p._vmon_history = []
+        if h % 2:
+            p = elder
+            rec.arm("histories:on-the-long-lived-parser")
+            if len(elder._vmon_history) > 6000:
+                del elder._vmon_history[:-3000]   # the witness keeps the recent part only
+        else:
+            p = ExpressionParser()
+            p._vmon_history = []
         pool = W8.text_pool(rng, corp, n_valid=rng.randint(2, 5), n_invalid=rng.randint(1, 4))
+        if h % 3 == 0:
+            # failures deep inside nested groups / function calls, and valid nested texts queried after them
+            d = rng.choice([3, 10, 40, 90, 120])
+            pool.append("(" * d + "x")
+            pool.append("sgn(" * rng.choice([2, 7, 30, 80]) + "4y")
+            pool.append("(" * d + "x + 1" + ")" * d)
+            pool.append("(" * 5 + "x + )")
+            pool.append("(2 + 3) * sgn((x))")
+            rec.arm("histories:deep-failures-in-pool")
         st = W8.drive_history(p, rng, pool, rng.randint(50, cfg.scale(200, 500)))
         rec.arm("histories")
         for k, v in st.items():
